@@ -1,2 +1,87 @@
-(** C06.  Only statements, [exact], and Print Assumptions. *)
-From Sheens Require Import Model.Step.
+(** C06 - The engine holds no state: processing never modifies what it is
+    given.  Only statements, [exact], and Print Assumptions.
+
+    A Gallina function cannot modify its arguments, so the claim is stated
+    about the ownership-tracked model of Model/Own.v: Spec.Step / the body
+    of Spec.Walk re-stated with every top-level bindings map tagged [Caller]
+    (the map inside the state that was passed in) or [Fresh] (allocated
+    during the call) and with a log of every in-place write the Go code
+    performs (Extend, Extendm, the restore loop of FuncAction.Exec).
+    [same a bs] says that the wrapped function handed back the very map it
+    was given (a native action may); [run] is ANY behaviour of actions and
+    guards - failing, rejecting, error with and without a partial result.
+
+    - [C06_tracked_*_is_the_model]: erasing the tags gives exactly [step] /
+      [walk_stride], so these theorems are about the same function as
+      C04/C05/C07 and as the correspondence run;
+    - [C06_step_leaves_caller_intact] / [C06_walk_stride_leaves_caller_intact]:
+      no logged write changes the contents of the caller's map, and every
+      state of the returned stride (From, To - including error states) holds
+      a fresh map, never the caller's.
+    The messages, the specification and the control are only read by the
+    model (they are never the target of a logged operation); deep snapshots
+    and map-identity probes on the implementation cover them and test the
+    tag assignment itself. *)
+From Sheens Require Import Model.Step Model.Own Spec.WalkSpec Proofs.OwnProofs.
+
+Section C06.
+Variable action : Type.
+Variable run : action -> option bindings -> exec_raw.
+Variable same : action -> option bindings -> bool.
+
+Theorem C06_tracked_step_is_the_model :
+  forall s st pending,
+  erase_out (stepT action run same s st pending) =
+  plain_out (step action run s (erase_state st) pending).
+Proof. exact (stepT_erase action run same). Qed.
+
+Theorem C06_tracked_walk_stride_is_the_model :
+  forall s st pendings,
+  erase_stride (fst (walk_strideT action run same s st pendings)) =
+  fst (walk_stride action run s (erase_state st) pendings).
+Proof. exact (walk_strideT_erase action run same). Qed.
+
+(** [c0]: the contents of the caller's map (key-sorted, as every bindings
+    map of the model); an action that hands back the map it was given has
+    not changed it - otherwise the action, not the engine, wrote to it *)
+Variable c0 : option bindings.
+Hypothesis c0_sorted : sorted_keys (copy_bs c0) = true.
+Hypothesis same_unchanged :
+  forall a bs, same a bs = true -> exists em, xr_exe (run a bs) = Some (bs, em).
+
+Theorem C06_step_leaves_caller_intact :
+  forall s st pending,
+  tinv c0 (ts_bs st) ->
+  let o := stepT action run same s st pending in
+  log_ok (tso_log o) /\ (forall sd, tso_stride o = Some sd -> stride_fresh sd).
+Proof. exact (stepT_own action run same c0 c0_sorted same_unchanged). Qed.
+
+Theorem C06_walk_stride_leaves_caller_intact :
+  forall s st pendings,
+  tinv c0 (ts_bs st) ->
+  log_ok (snd (walk_strideT action run same s st pendings)) /\
+  stride_fresh (fst (walk_strideT action run same s st pendings)).
+Proof. exact (walk_strideT_own action run same c0 c0_sorted same_unchanged). Qed.
+End C06.
+
+Print Assumptions C06_tracked_step_is_the_model.
+Print Assumptions C06_tracked_walk_stride_is_the_model.
+Print Assumptions C06_step_leaves_caller_intact.
+Print Assumptions C06_walk_stride_leaves_caller_intact.
+
+(** non-vacuity: a native action hands back the caller's own map, which
+    holds a permanent binding; the restore loop writes into it (one logged
+    write to a [Caller] map) without changing it, and the stride's states are
+    fresh; the action then follows no branch, so the error state is built -
+    from a copy *)
+From Sheens Require Import Model.Action.
+Definition ex_spec : aspec :=
+  mk_spec [("start", mk_node (Some (Native (mk_prog [] TRetBindings) false)) false None)] false "" true.
+Definition ex_same (a : act) (bs : option bindings) : bool :=
+  match a with Native p _ => match pg_ops p with [] => true | _ => false end | Js _ => false end.
+Example C06_nonvacuous :
+  let st := mk_tstate "start" (mk_tbs Caller (Some [("cfg!", JNum 4)])) in
+  let o := stepT act run_act ex_same ex_spec st None in
+  tso_log o = [(Caller, false); (Fresh, true); (Fresh, true); (Fresh, true)] /\
+  option_map (fun sd => option_map (fun s' => t_own (ts_bs s')) (tsd_to sd)) (tso_stride o) = Some (Some Fresh).
+Proof. vm_compute. auto. Qed.
